@@ -8,7 +8,8 @@ CLAIMS = {
          '(all 18x18 combinations, duplicates, a second task in the same bulk in '
          'both orders); the solver-guided path search exhausts the tree '
          '("confirmed over all paths").  One step from an arbitrary state covers '
-         'notification histories of any length.',
+         'notification histories of any length.  A task that is final also stays what it '
+         'is when its pilot ends afterwards (TaskManager._pilot_state_cb).',
     note='Trusted: CrossHair 0.0.110/z3 path exhaustion; locks replaced by no-op '
          'context managers (single thread); _log/_prof no-ops; bulk callbacks '
          '(_USE_BULK_CB, off by default) not covered; at most 2 tasks per bulk.',
@@ -21,7 +22,8 @@ CLAIMS = {
          'and the post-state of every task is compared with "FAILED naming the '
          'pilot iff bound to an ended pilot and not final, unchanged otherwise"; the '
          'registration path add_pilots -> register_callback -> Pilot._update is driven '
-         'for 1..2 pilots with a symbolic current pilot state and removal.',
+         'for 1..2 pilots with a symbolic current pilot state and removal; the task may be '
+         'a service task; pilots may end because their PilotManager is closed.',
     note='Trusted: CrossHair/z3 path exhaustion; TaskManager.advance replaced by a '
          'recorder, Pilot facade by an object with uid/state; bound: 1 arbitrary task '
          '+ 3 fixed bystanders (quick), 2 arbitrary tasks (thorough), 2 pilots.',
@@ -29,7 +31,7 @@ CLAIMS = {
  'C15': dict(
     text='Bounded symbolic execution of the real Task.wait, Pilot.wait, '
          'TaskManager.wait_tasks and PilotManager.wait_pilots against a fake clock: '
-         'requested-state argument (12 forms), state trajectory of the awaited '
+         'requested-state argument (13 forms), state trajectory of the awaited '
          'entities and the time-out (symbolic number of poll intervals) are solver '
          'variables; a path that runs out of poll fuel after the awaited condition '
          'became true is reported as "did not return"; returned values are compared '
@@ -51,7 +53,10 @@ CLAIMS = {
          'and a symbolic pair of termination events; the state written to '
          'killme.signal and published is compared with the cause; (P3) two threads '
          'delivering notifications for the same pilot through _update_pilot turned '
-         'into coroutines (cooperative _pilots_lock, symbolic pre-emption points).',
+         'into coroutines (cooperative _pilots_lock, symbolic pre-emption points); the '
+         'final state equals the notified one whatever states were skipped; (P4) '
+         'PMGRLaunchingComponent.work reports FAILED exactly for the pilots of a '
+         'bucket whose submission failed.',
     note='Trusted: CrossHair/z3 path exhaustion; fake clock, in-memory killme.signal, '
          'recorders for session/rm/publish/advance; bootstrap_0.sh (forwards the '
          'signal file) not covered; one pilot per notification message; at most 2 '
@@ -92,7 +97,10 @@ CLAIMS = {
          'with the pre-state: only free cells, no cell twice, GPU shares per GPU <= '
          '1, lfs/mem within what is left, DOWN never handed out, map afterwards == '
          'map before + grant.  One step from an arbitrary state covers histories of '
-         'any length.  A failed client-side find_slots leaves the node list untouched.',
+         'any length.  A failed client-side find_slots leaves the node list untouched.  '
+         'The JSRUN flavour (ContinuousJsrun.schedule_task: ranks grouped into resource '
+         'sets sharing whole GPUs) is checked for free cells only and <= 1 share per '
+         'GPU.',
     note='Trusted: CrossHair/z3 path exhaustion; _log/_prof/pprint stubs, mp.Queue -> '
          'in-memory queue, advance -> recorder.  Bounds: 1 node x 2..4 cores x 1..2 '
          'GPUs for _find_resources; 2 nodes x 2 cores x 1 GPU for schedule_task; ranks '
@@ -125,7 +133,8 @@ CLAIMS = {
          '_schedule_incoming/_schedule_waitpool/_unschedule_completed: nothing held is '
          'granted again, capacity at quiescence == initial, _active_cnt == 0; (3) '
          'executor side (shared with C07): exactly one unschedule publication per task '
-         'on every explored interleaving; (4) client side find_slots + release_slots.',
+         'on every explored interleaving of the Popen and of the NOOP executor; (4) '
+         'client side find_slots + release_slots.',
     note='Trusted: CrossHair/z3 path exhaustion; in-memory queues. Bounds: 2 nodes x 2 '
          'cores x 1 GPU, <= 3 tasks, lfs/mem from concrete tables.',
     design='4/C03'),
@@ -157,7 +166,8 @@ CLAIMS = {
          'under a symbolic schedule with a context bound, a symbolic process-exit '
          'moment, exit code, cancel presence and launch fault point; the advance/'
          'publish trace must show AGENT_EXECUTING once, exactly one hand-over with '
-         'outcome and exactly one unschedule request per task.',
+         'outcome and exactly one unschedule request per task; a bulk of two tasks one of '
+         'whose launches fails leaves the sibling untouched.',
     note='Trusted: CrossHair/z3 path exhaustion; statement-level atomicity (GIL), '
          'pre-emption only at statements touching shared state; <= 2 pre-emptions '
          '(quick: second within 8 steps; 1 for the launch harness); fake process / '
@@ -175,7 +185,8 @@ CLAIMS = {
          'history is run twice, with and without the request: the bystander must end '
          'up with the same reports / hand-over and keep its resources, the named task '
          'is canceled exactly once unless it had finished before the request was seen; '
-         'requests naming several uids (unknown ones first) are covered.',
+         'requests naming several uids (unknown ones first) are covered; requests that '
+         'wait in the scheduler\'s raptor backlog are canceled / relayed by name.',
     note='Trusted: as C04 and C07. Bounds: <= 3 tasks, 1 node x 4 cores, <= 3 events, '
          '<= 2 pre-emptions (quick 1); client-side TaskManager.cancel_tasks message '
          'construction and the tmgr-side components are outside.',
@@ -228,7 +239,9 @@ CLAIMS = {
          'once per shipped node shape; the encoding is validated against the sliced '
          'source on concrete sizes.  (R1) all shipped configs x schemas are resolved '
          'concretely through the real Session.get_resource_config and the factory '
-         'tables (finite enumeration, stated as such).',
+         'tables, and the whole real _prepare_pilot is executed concretely for every '
+         'shipped platform x schema x 6..9 boundary pilot sizes against the raw '
+         'platform description (finite enumerations, stated as such).',
     note='Trusted: z3 4.x/5.x NIA/LRA verdicts (unknown is reported as inconclusive); '
          'float division treated as real division: Lemma F (QF_BVFP, z3 Float64: '
          'ceil(a / b) in binary64 equals the integer ceiling for all 1 <= b <= 2^k, 0 <= '
